@@ -13,6 +13,9 @@ snapshot_trace_data. The argument is inductive:
     contracts: Layout::split yields as many areas as constraints; State readers succeed for the default flow and registered flows (C10.R1);
     Hop counters satisfy received ≤ sent (C05.R1); hop lists have at most MAX_TTL entries.
     Every panic-capable MIR construct is discharged by the range prover, by a reviewed allow entry (function + kind + reason), or reported.
+ R3h the selected hop *address* is re-validated with the hop: a clamp that runs before every frame bounds selected_hop_address by the address count of
+    the hop selected when it returns (0 without a selection). C15.R4 (imported): the registry never holds more than max_flows flows — the fact the
+    reviewed reason of the flow-position lookup cites.
 Not decided: panics inside ratatui / crossterm for degenerate terminal sizes; that layout arithmetic renders *correctly*; the report modes.
 """
 import re
